@@ -286,6 +286,16 @@ SWEEP = ["reusable/test_memory_resource.cpp",
 
 # name anchors (validated by tools/rename_sweep.py; a vanished name is exit 2, see core.check_anchor_names)
 ANCHORS = {
+    '_last_destroy_task_array': ['^babylon::ExclusiveMonotonicBufferResource(<|$)'],
+    '_last_oversize_page_array': ['^babylon::ExclusiveMonotonicBufferResource(<|$)'],
+    '_last_page_array': ['^babylon::ExclusiveMonotonicBufferResource(<|$)'],
+    '_last_page_pointer': ['^babylon::ExclusiveMonotonicBufferResource(<|$)'],
+    '_space_allocated': ['^babylon::ExclusiveMonotonicBufferResource(<|$)'],
+    '_space_used': ['^babylon::ExclusiveMonotonicBufferResource(<|$)'],
+    'alignment': ['^babylon::ExclusiveMonotonicBufferResource::OversizePage(<|$)'],
+    'bytes': ['^babylon::ExclusiveMonotonicBufferResource::OversizePage(<|$)'],
     'destruct_all': ['^babylon::ExclusiveMonotonicBufferResource(<|$)'],
+    'destructor': ['^babylon::ExclusiveMonotonicBufferResource::DestroyTask(<|$)'],
     'do_allocate_with_page_in_new_page_array': ['^babylon::ExclusiveMonotonicBufferResource(<|$)'],
+    'pages': ['^babylon::ExclusiveMonotonicBufferResource::OversizePageArray(<|$)', '^babylon::ExclusiveMonotonicBufferResource::PageArray(<|$)'],
 }
